@@ -52,6 +52,7 @@ type pendingRename struct {
 // Checker replays events of consecutive victim processes of one scenario and
 // evaluates R1, R2, R3 (DESIGN §4 C11).
 type Checker struct {
+	cwd string // working directory of the traced process as far as the trace shows it
 	Root     string
 	Findings []Finding
 	Counts   map[string]int
@@ -183,13 +184,43 @@ func (c *Checker) EndProcess() {
 }
 
 // Feed processes one event.
+// at resolves a (dirfd, path) pair like atPath; a relative path without a directory
+// annotation is taken relative to the working directory the trace has shown so far
+// (chdir calls and AT_FDCWD</dir> annotations).
+func (c *Checker) at(dirArg, pathArg string) (string, error) {
+	p, err := atPath(dirArg, pathArg)
+	if err != nil && c.cwd != "" {
+		if rel, ok := strArg(pathArg); ok && !strings.HasPrefix(rel, "/") {
+			return c.cwd + "/" + rel, nil
+		}
+	}
+	return p, err
+}
+
 func (c *Checker) Feed(ev Event) {
 	if ev.Exit {
 		return
 	}
 	ok := ev.Ret >= 0
 	a := ev.Args
+	for _, arg := range a {
+		if strings.HasPrefix(arg, "AT_FDCWD<") {
+			if _, d := fdArg(arg); d != "" {
+				c.cwd = d
+			}
+		}
+	}
 	switch ev.Name {
+	case "chdir":
+		if ok && len(a) >= 1 {
+			if d, sok := strArg(a[0]); sok {
+				if strings.HasPrefix(d, "/") {
+					c.cwd = clean(d)
+				} else if c.cwd != "" {
+					c.cwd = clean(c.cwd + "/" + d)
+				}
+			}
+		}
 	case "open", "openat", "creat":
 		if !ok {
 			return
@@ -275,11 +306,11 @@ func (c *Checker) Feed(ev Event) {
 		var src, dst string
 		var err1, err2 error
 		if ev.Name == "rename" && len(a) >= 2 {
-			src, err1 = atPath("", a[0])
-			dst, err2 = atPath("", a[1])
+			src, err1 = c.at("", a[0])
+			dst, err2 = c.at("", a[1])
 		} else if len(a) >= 4 {
-			src, err1 = atPath(a[0], a[1])
-			dst, err2 = atPath(a[2], a[3])
+			src, err1 = c.at(a[0], a[1])
+			dst, err2 = c.at(a[2], a[3])
 		} else {
 			return
 		}
@@ -298,9 +329,9 @@ func (c *Checker) Feed(ev Event) {
 			if hasFlag(a[2], "AT_REMOVEDIR") {
 				return
 			}
-			p, err = atPath(a[0], a[1])
+			p, err = c.at(a[0], a[1])
 		} else if ev.Name == "unlink" && len(a) >= 1 {
-			p, err = atPath("", a[0])
+			p, err = c.at("", a[0])
 		} else {
 			return
 		}
